@@ -10,6 +10,9 @@
 use std::mem::MaybeUninit;
 use std::num::NonZeroUsize;
 use std::ptr::NonNull;
+#[cfg(woodpile_verif)]
+use crate::verif::AtomicUsize;
+#[cfg(not(woodpile_verif))]
 use std::sync::atomic::AtomicUsize;
 use std::sync::Arc;
 
